@@ -292,28 +292,27 @@ Lemma verify_commit_ok c auths setid thr hf m :
   verify_commit c auths setid thr hf m = ROk tt <->
   prechecks c setid hf m = ROk tt /\
   (exists st, loop c auths (cm_vote m) l0 (entries m) = ROk st) /\
-  thr <= spec_count c auths m.
+  thr < spec_count c auths m.
 Proof.
   unfold verify_commit. destruct (prechecks c setid hf m) as [[]|x].
   - destruct (loop c auths (cm_vote m) l0 (entries m)) as [st|x] eqn:L.
-    + rewrite (final_count_spec _ _ _ _ L). destruct (N.ltb_spec (spec_count c auths m) thr).
+    + rewrite (final_count_spec _ _ _ _ L). destruct (N.leb_spec (spec_count c auths m) thr).
       * split; [discriminate|]. intros [_ [_ ?]]. lia.
       * split; [|reflexivity]. intros _. split; [reflexivity|]. split; [eauto|assumption].
     + split; [discriminate|]. intros [_ [[st ?] _]]. discriminate.
   - split; [discriminate|]. intros [? _]. discriminate.
 Qed.
 
-(* the repaired code never finalises on fewer than threshold distinct backers *)
-Lemma verify_commit_count c auths setid thr hf m :
-  verify_commit c auths setid thr hf m = ROk tt -> thr <= spec_count c auths m.
-Proof. intros H. apply verify_commit_ok in H. tauto. Qed.
-
-Lemma above_threshold_supermajority (n cnt : N) :
-  2 * n / 3 <= cnt -> cnt <> 2 * n / 3 -> 2 * n < 3 * cnt.
-Proof. intros H1 H2. pose proof (N.mod_lt (2*n) 3). pose proof (N.div_mod' (2*n) 3). lia. Qed.
+(* strictly more than floor(2n/3) is exactly "more than two thirds" *)
+Lemma above_threshold_iff (n cnt : N) : 2 * n / 3 < cnt <-> 2 * n < 3 * cnt.
+Proof. pose proof (N.mod_lt (2*n) 3). pose proof (N.div_mod' (2*n) 3). lia. Qed.
 
 Lemma at_threshold_no_supermajority (n : N) : ~ 2 * n < 3 * (2 * n / 3).
 Proof. pose proof (N.div_mod' (2*n) 3). lia. Qed.
+
+Lemma supermajority_iff c auths m :
+  supermajority c auths m = true <-> threshold auths < spec_count c auths m.
+Proof. unfold supermajority, threshold. rewrite N.ltb_lt. symmetry. apply above_threshold_iff. Qed.
 
 (* ---------- handleCommitMessage ---------- *)
 Lemma handle_accepted_iff c auths setid has hf m eff :
@@ -359,28 +358,32 @@ Proof.
   apply handle_accepted_iff in H. destruct H as [_ [_ [_ ->]]]. cbn in F. inversion F. auto.
 Qed.
 
-(* accepted => at least threshold distinct current authorities back the commit *)
-Lemma handle_accepted_count c auths setid has hf m eff :
-  handle_commit c auths setid has hf m = (HAccepted, eff) -> threshold auths <= spec_count c auths m.
-Proof.
-  intros H. apply handle_accepted_iff in H. destruct H as [_ [_ [H _]]].
-  now apply verify_commit_count in H.
-Qed.
-
-Lemma handle_accepted_supermajority_partial c auths setid has hf m eff :
-  handle_commit c auths setid has hf m = (HAccepted, eff) ->
-  threshold_guard c auths m = false ->
+(* accepted <-> the structural checks pass and a supermajority of distinct authorities backs it *)
+Lemma handle_accepted_supermajority_iff c auths setid has hf m :
+  (exists eff, handle_commit c auths setid has hf m = (HAccepted, eff)) <->
+  hdr_num c (v_hash (cm_vote m)) = Some (v_num (cm_vote m)) /\ has = false /\
+  prechecks c setid hf m = ROk tt /\
+  (exists st, loop c auths (cm_vote m) l0 (entries m) = ROk st) /\
   supermajority c auths m = true.
 Proof.
-  intros H G. apply handle_accepted_count in H. unfold threshold_guard in G. apply N.eqb_neq in G.
-  unfold supermajority. apply N.ltb_lt. unfold threshold in *.
-  now apply above_threshold_supermajority.
+  rewrite supermajority_iff. split.
+  - intros [eff H]. apply handle_accepted_iff in H. destruct H as [H1 [H2 [H3 _]]].
+    apply verify_commit_ok in H3. tauto.
+  - intros [H1 [H2 [H3 [H4 H5]]]]. eexists. apply handle_accepted_iff.
+    split; [assumption|]. split; [assumption|]. split; [|reflexivity].
+    apply verify_commit_ok. tauto.
 Qed.
 
-Lemma guard_no_supermajority c auths m :
-  threshold_guard c auths m = true -> supermajority c auths m = false.
+Lemma handle_accepted_supermajority c auths setid has hf m eff :
+  handle_commit c auths setid has hf m = (HAccepted, eff) -> supermajority c auths m = true.
 Proof.
-  unfold threshold_guard, supermajority, threshold. intros G. apply N.eqb_eq in G. rewrite G.
+  intros H. apply (handle_accepted_supermajority_iff c auths setid has hf m). eauto.
+Qed.
+
+Lemma at_threshold_not_supermajority c auths m :
+  at_threshold c auths m = true -> supermajority c auths m = false.
+Proof.
+  unfold at_threshold, supermajority, threshold. intros G. apply N.eqb_eq in G. rewrite G.
   apply N.ltb_ge. pose proof (at_threshold_no_supermajority (N.of_nat (length auths))). lia.
 Qed.
 
@@ -394,13 +397,12 @@ Proof.
   destruct x; discriminate.
 Qed.
 
-Lemma handle_prop_partial c auths setid has hf m r eff :
+Lemma handle_prop c auths setid has hf m r eff :
   handle_commit c auths setid has hf m = (r, eff) ->
-  threshold_guard c auths m = false ->
   prop_holds c auths setid m has (returns_nil r) (fin_calls eff) = true.
 Proof.
-  intros H G. destruct r.
-  - pose proof (handle_accepted_supermajority_partial _ _ _ _ _ _ _ H G) as S.
+  intros H. destruct r.
+  - pose proof (handle_accepted_supermajority _ _ _ _ _ _ _ H) as S.
     apply handle_accepted_iff in H. destruct H as [_ [_ [_ ->]]].
     cbn. rewrite S, !N.eqb_refl. reflexivity.
   - rewrite (handle_already_has _ _ _ _ _ _ _ H).
@@ -421,14 +423,15 @@ Definition w_auths : list N := [0; 1; 2; 3].
 Definition w_commit (pcs : list vote) (ads : list authdata) : commit :=
   mkCommit 1 0 (mkVote 1 1) pcs ads.
 
-(* two honest precommits out of four authorities: accepted by the repaired code as well *)
+(* two honest precommits out of four authorities: accepted by the pinned tree, rejected now *)
 Definition w_threshold : commit :=
   w_commit [mkVote 1 1; mkVote 2 2] [mkAuth 0 100 true; mkAuth 1 101 true].
 Lemma threshold_witness :
-  handle_commit w_chain w_auths 0 false 0 w_threshold
+  handle_commit_prefix w_chain w_auths 0 false 0 w_threshold
     = (HAccepted, mkEff (Some (1, 1, 0)) (Some (1, 0)) false)
   /\ supermajority w_chain w_auths w_threshold = false
-  /\ threshold_guard w_chain w_auths w_threshold = true.
+  /\ at_threshold w_chain w_auths w_threshold = true
+  /\ handle_commit w_chain w_auths 0 false 0 w_threshold = (HRejected EMinVotes, no_effect).
 Proof. vm_compute. auto. Qed.
 
 (* one authority's precommit listed three times *)
